@@ -273,7 +273,8 @@ pub fn actions(al: &Alpha) -> Vec<(Act, u8)> {
     }
     v.push((Act::CleanAll, 0));
     for r in 0..al.ranges.len() as u8 {
-        v.push((Act::CleanRange { r }, if r < 4 { 0 } else { 1 }));
+        // default (deviation-free) ranges: the first four and one that starts unaligned inside one level-3 slot and ends in the next
+        v.push((Act::CleanRange { r }, if r < 4 || r == 7 { 0 } else { 1 }));
     }
     v
 }
